@@ -152,6 +152,10 @@ let gen_history (seed : int) (nops : int) (ndocs : int) (profile : int) : string
                else (Printf.sprintf "dcopy %d %d" d s, ODocCopy (nat_of_int d, nat_of_int s), None)
         | 2 -> if d = s then (Printf.sprintf "dshrink %d" d, ODocShrink (nat_of_int d), None)
                else (Printf.sprintf "dswap %d %d" d s, ODocSwap (nat_of_int d, nat_of_int s), None)
+        | 3 when d <> s ->
+            (* copy / move construction of temporaries from document s: observers only, nothing changes *)
+            custom := Some (fun w -> (w, RUnit));
+            (Printf.sprintf "dcopyctor %d %d" d s, OGetElem (n_of_int s, O), None)
         | _ -> (Printf.sprintf "dshrink %d" d, ODocShrink (nat_of_int d), None)
       end in
     (* which non-root handles become stale in the C++ (not in the tree model) *)
@@ -234,6 +238,7 @@ let run_script (ndocs : int) (script : string) : string =
       | ["dshrink"; d] -> (ODocShrink (nat d), None)
       | ["deser"; h; t] -> (ODeser (hid h, bytes_of_hex t), None)
       | ["dmove"; d; s2] -> (ODocSwap (nat d, nat s2), None)
+      | ["dcopyctor"; _; s2] -> (OGetElem (n_of_int (int_of_string s2), O), None)
       | ["addarr"; h; nh] | ["addobj"; h; nh] -> (OAddNew (hid h), Some (int_of_string nh))
       | ["nestarr"; h; k; nh] | ["nestobj"; h; k; nh] -> (OMakeMember (hid h, bytes_of_hex k), Some (int_of_string nh))
       | ["chainget"; h; _; nh] -> (OGetElem (hid h, O), Some (int_of_string nh))
@@ -241,6 +246,7 @@ let run_script (ndocs : int) (script : string) : string =
       | _ -> failwith ("bad step: " ^ st) in
     let (w', res) = (match toks with
       | ["dmove"; d; s2] -> doc_move !w (nat d) (nat s2)
+      | ["dcopyctor"; _; _] -> (!w, RUnit)
       | [("addarr" | "addobj") as t; h; _] -> add_typed !w (hid h) (t = "addarr")
       | [("nestarr" | "nestobj") as t; h; k; _] -> nest_typed !w (hid h) (bytes_of_hex k) (t = "nestarr")
       | ["chainget"; h; p; _] -> chain_get !w (hid h) (path_of_string p)
